@@ -412,6 +412,9 @@ class BaseEMSurvey(ObjectBase, ABC):  # pylint: disable=too-many-public-methods
 
                         if isinstance(prop_group, PropertyGroup):
                             prop_groups.append(prop_group.name)
+                        elif isinstance(value, str):
+                            # the group may belong to the partner entity: keep its name
+                            prop_groups.append(value)
 
                     metadata["EM Dataset"]["Property groups"] = prop_groups
 
